@@ -433,7 +433,8 @@ class FmtStr:
 
     def copy_with_new_atts(self, **attributes: Union[bool, int]) -> "FmtStr":
         """Returns a new FmtStr with the same content but new formatting"""
-
+        # same checks (and colour names) as fmtstr()
+        attributes = parse_args((), attributes)  # type: ignore
         return FmtStr(
             *(Chunk(bfs.s, bfs.atts.extend(attributes)) for bfs in self.chunks)
         )
